@@ -3,7 +3,7 @@
    harness.  Request: (op args...).  Extracted with ExtrOcamlBasic only. *)
 From Coq Require Import String.
 From PV Require Import Base.Outcome Base.Prim Base.PyData Spec.PrimSpec
-  Model.C07Kinds Model.C07Lists Model.C07Inst Gen.C07Tables Spec.C07Lists Spec.C07Sections.
+  Model.C07Kinds Model.C07Lists Model.C07Session Model.C07Inst Gen.C07Tables Spec.C07Lists Spec.C07Sections.
 From Coq Require Import ZArith List Bool.
 Import ListNotations.
 Open Scope string_scope.
@@ -118,6 +118,33 @@ Definition x_units_expect (ex : list (Z * Z * list (Z * Z * list tup))) : sx :=
   SL (map (fun e => SL [SI (fst (fst e)); SI (snd (fst e)); x_expect (snd e)]) ex).
 
 Definition stream_of (o : option (list Z)) : list Z := match o with Some s => s | None => [] end.
+
+(* ------------------------------------------------------------------ sessions (Model/C07Session.v)
+   act: (parse k n) | (fetch k d name) | (get_ex offset)
+   op:  (act a) | (iter_loc version sched) | (iter_rng version sched) | (cus_loc sched) | (cus_rng sched)
+        | (cu_ex unit-index sched);  sched = ((act...)...) *)
+Definition g_act (s : sx) : act :=
+  let l := gL s in
+  let k := gS (nthx 0 l) in
+  if k == "parse" then AParse (gnat (nthx 1 l)) (gnat (nthx 2 l))
+  else if k == "fetch" then AFetch (gnat (nthx 1 l)) (gnat (nthx 2 l)) (gS (nthx 3 l))
+  else AGetRngEx (gI (nthx 1 l)).
+Definition g_sched (s : sx) : list (list act) := g_list (g_list g_act) s.
+Definition g_op (s : sx) : op :=
+  let l := gL s in
+  let k := gS (nthx 0 l) in
+  if k == "act" then OAct (g_act (nthx 1 l))
+  else if k == "iter_loc" then OIterLoc (gI (nthx 1 l)) (g_sched (nthx 2 l))
+  else if k == "iter_rng" then OIterRng (gI (nthx 1 l)) (g_sched (nthx 2 l))
+  else if k == "cus_loc" then OIterCUsLoc (g_sched (nthx 1 l))
+  else if k == "cus_rng" then OIterCUsRng (g_sched (nthx 1 l))
+  else OIterCUEx (gnat (nthx 1 l)) (g_sched (nthx 2 l)).
+Definition x_ev (e : ev) : sx :=
+  match e with
+  | ETups label l => SL [SS label; x_tups l]
+  | ERaw label l => SL [SS label; x_containers l]
+  | EHdr label c => SL [SS label; x_container c]
+  end.
 
 (* ------------------------------------------------------------------ dispatch *)
 Definition dispatch (req : sx) : sx :=
@@ -241,4 +268,13 @@ Definition dispatch (req : sx) : sx :=
     | LNone => SS "none" | LSingle v => SL [SS "single"; SI v] | LPair => SS "pair"
     end
   else if op == "m_pair_version" then SI (pair_version (g_cuinfo a1))
+  (* ---- sessions: (op sections (cuview...) (op...)) -> ((event...) err|none) *)
+  else if op == "m_session" then
+    let S := g_sections a1 in let cus := g_list g_cuview a2 in
+    let r := run_ops LLE_TABLES RLE_TABLES gen_loclists_CU_header gen_rnglists_CU_header gen_locview_pair
+                     S cus (g_list g_op a3) (fresh cus) in
+    SL [SL (map x_ev (fst r)); match snd r with Some e => sx_of_err e | None => sx_none end]
+  else if op == "wf_session" then
+    let S := g_sections a1 in let cus := g_list g_cuview a2 in
+    sx_bool (forallb (op_in_domain S cus) (g_list g_op a3))
   else sx_err "unknown-op".
